@@ -15,7 +15,8 @@ full and partly read, just reallocated, after Grow, after a short WriteTo, after
 Unread*/ReadRune/WriteString/String; run-length encoded runs of 255..257 and 65535..65537 WriteByte/ReadByte
 calls and payloads; every io sentinel (plain and wrapped) and the type's own ErrTooLarge entering through
 the reader and the writer; real readers (bytes.Reader, strings.Reader, iotest Half/OneByte/DataErr) as
-ReadFrom sources."""
+ReadFrom sources; NewSizedBuffer sizes and Grow amounts around 4096 / 64 KiB / 128 KiB / 1 MiB
+(Cap() >= requested; Cap() >= Len()+n after Grow(n)), each buffer Reset / drained and used again."""
 import json
 
 from vlib import MachineryError, log
